@@ -284,6 +284,9 @@ def main():
         print("timeout in lean stage")
         return 2
     lean_ok = lean["build_ok"] and not lean["failed"] and len(lean["discharged"]) == len(lean["obligations"]) and lean["obligations"]
+    import cover
+    cov = cover.Cover(os.path.join(REPO, "src", "pystog"))
+    cov.start()
     # correspondence
     import corr
     ncorr = getattr(mod, "NCORR", {"quick": 12, "thorough": 120})[tier]
@@ -335,6 +338,12 @@ def main():
                     f = []
                 if f:
                     orc["failures"].append((pc, f))
+    cov.stop()
+    try:
+        anchors = [json.loads(l) for l in open(os.path.join(VERIF, "properties.jsonl")) if json.loads(l)["id"] == prop][0]["anchors"]["files"]
+        impl_cov = cov.report(anchors)
+    except Exception as ex:  # noqa: BLE001
+        impl_cov = {"error": str(ex)}
     # decide
     violations, known_hits = [], []
     nrep = 0
@@ -379,6 +388,7 @@ def main():
                                                 distribution=corr_res.get("distribution"), samples=corr_res.get("samples", []),
                                                 extra=corr_res.get("extra")),
                             oracle=dict(evaluations=orc["evaluations"], failures=len(orc["failures"]), distribution=orc["distribution"]),
+                            impl_line_coverage=impl_cov,
                             known_findings_hit=[k["id"] for k in known_hits], log=log, build_s=lean.get("build_s")),
               assumptions=list(getattr(mod, "ASSUMPTIONS", [])) + ["see DESIGN.md section 10 (trusted base)"],
               wall_s=round(wall, 2), violations=len(violations))
